@@ -93,6 +93,39 @@ def gen_mm(rng, path):
     return len(used)
 
 
+AMB_POOL = ['xX', 'yY', 'zZ', 'aA', 'bB', 'eX', 'sS', 'v1', 'v2', 'v3', 'uU', 'wW', 'k', 'm', 'Var0', 'Var1']
+
+
+def gen_mm_ambiguous(rng, path, fixed=False):
+    """impreflex-compressed-goal.mm extended with 2..3 `$f #Variable` (element-or-set) variables and theory axioms that
+    mention at least two of them: GlobalScope.unambiguize decides their EVar/SVar numbers, which end up in .ml-gamma"""
+    amb = ['xX', 'yY'] if fixed else rng.sample(AMB_POOL, rng.choice([2, 2, 3]))
+    order = amb[:]
+    if not fixed:
+        rng.shuffle(order)
+    src = ['$c #Pattern #Variable $.', '$v ph0 ph1 ph2 ' + ' '.join(amb) + ' $.',
+           'ph0-is-pattern $f #Pattern ph0 $.', 'ph1-is-pattern $f #Pattern ph1 $.', 'ph2-is-pattern $f #Pattern ph2 $.']
+    src += [f'{v}-is-var $f #Variable {v} $.' for v in order]
+    src += ['$c |- $.', '$c \\imp $.', '$c ( ) $.', f'var-is-pattern $a #Pattern {order[0]} $.',
+            'imp-is-pattern $a #Pattern ( \\imp ph0 ph1 ) $.',
+            'proof-rule-prop-1 $a |- ( \\imp ph0 ( \\imp ph1 ph0 ) ) $.',
+            'proof-rule-prop-2 $a |- ( \\imp ( \\imp ph0 ( \\imp ph1 ph2 ) ) ( \\imp ( \\imp ph0 ph1 ) ( \\imp ph0 ph2 ) ) ) $.',
+            '${ proof-rule-mp.0 $e |- ( \\imp ph0 ph1 ) $.  proof-rule-mp.1 $e |- ph0 $.  proof-rule-mp $a |- ph1 $. $}']
+    naxioms = 1 if fixed else rng.randint(1, 3)
+    for i in range(naxioms):
+        vs = amb[:] if fixed else rng.sample(amb, rng.randint(2, len(amb)))
+        if len(vs) == 2:
+            a, b = vs
+            src.append(f'vars-axiom-{i} $a |- ( \\imp {a} ( \\imp {b} {a} ) ) $.')
+        else:
+            a, b, c = vs
+            src.append(f'vars-axiom-{i} $a |- ( \\imp ( \\imp {a} ( \\imp {b} {c} ) ) ( \\imp ( \\imp {a} {b} ) ( \\imp {a} {c} ) ) ) $.')
+    src.append('goal $p |- ( \\imp ph0 ph0 ) $=\n  ( imp-is-pattern proof-rule-prop-2 proof-rule-prop-1 proof-rule-mp ) AAABZBZF\n  AFABBGFBAFACAFDEAADE $.')
+    with open(path, 'w') as f:
+        f.write('\n'.join(src) + '\n')
+    return len(amb)
+
+
 def finalize_line(d, oracle, slots=None):
     ents = []
     for u, s, c, used in d['usage']:
@@ -213,7 +246,14 @@ def run(tier, seed):
         alpha = 'abcxyzABZ019_-.\\ph\u00e9\u0101\u4e2d\U0001d7ff'
         lists = [[''.join(rs.choice(alpha) for _ in range(rs.randint(0, 4))) for _ in range(rs.randint(0, 7))]
                  for _ in range(150 if quick else 3000)]
-        cjobs = [{'t': 'metavars', 'path': os.path.join(bench0, f)} for f in mfiles] + [{'t': 'sorted', 'lists': lists}]
+        ucases = []
+        for _ in range(60 if quick else 1500):
+            amb = rs.sample(AMB_POOL, rs.randint(1, 5))
+            sel = rs.sample(amb, rs.randint(1, min(4, len(amb))))
+            ucases.append({'base_e': rs.sample(['x', 'y', 'z', 'w'], rs.randint(0, 3)), 'base_s': rs.sample(['X', 'Y', 'Z'], rs.randint(0, 2)),
+                           'amb': amb, 'selected': sel})
+        cjobs = [{'t': 'metavars', 'path': os.path.join(bench0, f)} for f in mfiles] + [{'t': 'unamb', 'cases': ucases}] + \
+                [{'t': 'sorted', 'lists': lists}]
         cseeds = seeds[:4]
         with ThreadPoolExecutor(max_workers=len(cseeds)) as ex:
             cres = list(ex.map(lambda hs: run_runner(cjobs, hs, os.path.join(scratch, f'cv{hs}')), cseeds))
@@ -226,6 +266,17 @@ def run(tier, seed):
                 for name, d in r['names'].items():
                     lines.append(f"M {el(r['floating'])} {el(d['metavars'])}")
                     meta.append(('M', fj, name, hs, d))
+            ur = res[len(mfiles)]
+            if 'cases' not in ur:
+                mismatches.append(('unamb-runner', ur))
+            else:
+                for uc, r in zip(ucases, ur['cases']):
+                    be = len(uc['base_e']) + len(uc['amb']) - len(uc['selected'])
+                    bs = len(uc['base_s']) + len(uc['amb']) - len(uc['selected'])
+                    lines.append(f"K {be} {el(uc['selected'])}")
+                    meta.append(('K', None, None, hs, (uc, r['first'], r['n'], 'all-element scope')))
+                    lines.append(f"K {bs} {el(uc['selected'])}")
+                    meta.append(('K', None, None, hs, (uc, r['last'], r['n'], 'all-set scope')))
             if hs == cseeds[0] and 'sorted' in res[-1]:
                 for l, want in zip(lists, res[-1]['sorted']):
                     lines.append(f'Q {el(sorted(set(l), key=lambda x: (len(x), x[::-1])))}')     # any listing of the set
@@ -233,6 +284,7 @@ def run(tier, seed):
         mo2 = C.run_lines_parallel(exe, lines)
         varied = 0
         seen_mv = {}
+        seen_un = {}
         for o, (kd, fj, name, hs, d) in zip(mo2, meta):
             if kd == 'M':
                 R.case(('metavars', fj, name, hs), len(d['metavars']) > 1, 'converter-site:metavars_in_order')
@@ -244,6 +296,20 @@ def run(tier, seed):
                 if k0['in_order'] != d['in_order'] or k0['as_set'] != d['as_set']:
                     findings.append(('nondeterministic:get_metavars_in_order', f'{fj}:{name} differs between hash seeds',
                                      {'file': fj, 'name': name, 'a': k0, 'b': d, 'hashseed': hs}))   # ... its consumers must not
+            elif kd == 'K':
+                uc, want, nsc, which = d
+                got = {} if o == '_' else {dl(x.rsplit('=', 1)[0])[0]: int(x.rsplit('=', 1)[1]) for x in o.split(';')}
+                R.case(('unambiguize', json.dumps(uc, sort_keys=True), hs, json.dumps(want, sort_keys=True)), len(uc['selected']) > 1,
+                       'scope-site:unambiguize')
+                if got != want or nsc != 2 ** len(uc['selected']):
+                    mismatches.append(('unambiguize_numbers', uc, hs, got, want, nsc))
+                kk = (json.dumps(uc, sort_keys=True), which)
+                prev = seen_un.setdefault(kk, (hs, want))
+                if prev[1] != want:
+                    findings.append(('nondeterministic:GlobalScope.unambiguize',
+                                     f'variable numbers given by unambiguize({uc["selected"]}) in the {which} differ between PYTHONHASHSEED={prev[0]} and {hs}',
+                                     {'case': uc, 'hashseeds': [prev[0], hs], 'numbers': [prev[1], want],
+                                      'how': 'harness/impl/c18_runner.py job {"t":"unamb","cases":[case]}'}))
             else:
                 R.case(('sorted', tuple(d)), len(d) > 1, 'converter-site:sorted(set)')
                 if dl(o) != d:
@@ -278,6 +344,14 @@ def run(tier, seed):
                 'proof-rule-prop-1 $a |- ( \\imp ph0 ( \\imp ph1 ph0 ) ) $.\n'
                 'goal $p |- ( \\imp ph1 ( \\imp ph0 ph1 ) ) $= ( proof-rule-prop-1 ) BAC $.\n')
     items.append({'t': 'mm', 'path': wit, 'target': 'goal', 'mandatory': 2})
+    # databases whose exported axioms mention two or three `$f #Variable` variables (numbers decided by scope.unambiguize)
+    p = os.path.join(mmdir, 'two_variable_floats.mm')
+    gen_mm_ambiguous(rmm, p, fixed=True)
+    items.append({'t': 'mm', 'path': p, 'target': 'goal', 'ambiguous': 2})
+    for i in range(5 if quick else 30):
+        p = os.path.join(mmdir, f'amb{i}.mm')
+        na = gen_mm_ambiguous(rmm, p)
+        items.append({'t': 'mm', 'path': p, 'target': 'goal', 'ambiguous': na})
     # a proof that marks a step with Z and refers back to it (number m + k + 1), two variables declared out of order
     zw = os.path.join(mmdir, 'z_backreference.mm')
     with open(zw, 'w') as f:
@@ -287,7 +361,7 @@ def run(tier, seed):
     items.append({'t': 'mm', 'path': zw, 'target': 'goal', 'mandatory': 1})
 
     def key(it):
-        return json.dumps({k: v for k, v in it.items() if k != 'mandatory'}, sort_keys=True)
+        return json.dumps({k: v for k, v in it.items() if k not in ('mandatory', 'ambiguous')}, sort_keys=True)
 
     # (a) per hash seed ONE process that serialises every item twice, in two different orders
     def seq_for(hs):
@@ -351,7 +425,8 @@ def run(tier, seed):
     for it in items + heavy:
         ol = obs[key(it)]
         ref_where, ref = ol[0]
-        kind = it['t'] + (f':mandatory={it["mandatory"]}' if 'mandatory' in it else '')
+        kind = it['t'] + (f':mandatory={it["mandatory"]}' if 'mandatory' in it else '') + \
+            (f':ambiguous-variable-floats={it["ambiguous"]}' if 'ambiguous' in it else '')
         for where, r in ol:
             nobs += 1
             R.case(('run', key(it), where), True, 'run:' + kind)
@@ -370,7 +445,7 @@ def run(tier, seed):
         if bad:
             w, r = bad[0]
             diff = [k for k in FILES6 + ['err'] if r.get(k) != ref.get(k)]
-            what = 'shipped:' + it['name'] if it['t'] == 'shipped' else it['t']
+            what = 'shipped:' + it['name'] if it['t'] == 'shipped' else ('mm-ambiguous-variables' if 'ambiguous' in it else it['t'])
             findings.append((f'nondeterministic-output:{what}:{",".join(d.split("-")[0] if d != "err" else "outcome" for d in diff[:1])}',
                              f'{key(it)}: output differs between [{ref_where}] and [{w}] in {diff}',
                              {'item': it, 'a': {'where': ref_where, 'result': ref}, 'b': {'where': w, 'result': r},
@@ -389,8 +464,11 @@ def run(tier, seed):
     R.sample({'items': len(items), 'observations': nobs, 'seeds': seeds, 'example': obs[key(items[0])][0]})
 
     # ---- verdict -------------------------------------------------------------------------------------------------------
-    for sig, desc, replay in findings[:6]:
-        R.violation(sig, desc, replay)
+    seen_sig = []
+    for sig, desc, replay in findings:
+        if sig not in seen_sig and len(seen_sig) < 8:
+            seen_sig.append(sig)
+            R.violation(sig, desc, replay)
     if proof_broken and not R.violations and not R.known_hit:
         R.violation('proof-broken' if not unmatched else 'unmatched-order-site',
                     'Coq proof stage failed' + (': new unordered-collection site(s) without an order-independence theorem' if unmatched else ''),
@@ -426,7 +504,7 @@ def replay(path):
     if it['t'] == 'mm' and not os.path.exists(it['path']) and rp.get('mm_source'):
         it = dict(it, path=os.path.join(scratch, 'replay.mm'))
         open(it['path'], 'w').write(rp['mm_source'])
-    it = {k: v for k, v in it.items() if k != 'mandatory'}
+    it = {k: v for k, v in it.items() if k not in ('mandatory', 'ambiguous')}
     seen = set()
     for hs in range(8):
         r = run_runner([it, it], hs, os.path.join(scratch, f'o{hs}'))
